@@ -69,6 +69,7 @@ def required(tier):
     b.update({f'period:{p}': 40 for p in PERIODS})
     b.update({f'window:{k}': 40 for k in NCLASSES})
     b.update({f'dist:{d}': 100 for d in DISTS})
+    b.update({'real-api:integer-dtype-input:int8': 100, 'real-api:integer-dtype-input:int16': 20, 'real-api:integer-dtype-input:int64': 40})
     b.update({'dist:const': 100, 'dist:nearconst': 20, 'dist:halfint': 10, 'ndim:2': 100, 'len:1': 20,
               'custom:none': 500, 'custom:scalar': 100, 'custom:pair': 50, 'explicit-stats': 50,
               'op:reset': 100, 'op:reset-mid-period': 40, 'op:set_target': 100, 'alias:digitize': 20,
@@ -160,6 +161,9 @@ def gen_cases(seed, tier):
                     if N < nn:
                         p['tail'] = str(common.pick(rng, ['none', 'scaled', 'scaled', 'last']))
                 call['parts'].append(p)
+            if not cx and rng.random() < 0.15:
+                # voltages as an integer-typed array (ADC counts, or the output of another quantiser)
+                call['int_dtype'] = True
             if cx and rng.random() < 0.12:
                 # a complex quantiser handed a REAL-dtype array: the imaginary part is identically zero
                 call['real_dtype'] = True
@@ -514,7 +518,17 @@ def run_case(c, R):
             x.real, x.imag = parts[0], parts[1]
             x0 = x.copy()
         else:
-            x = parts[0].copy()
+            if call.get('int_dtype'):
+                mx_ = float(np.max(np.abs(parts[0]))) if parts[0].size else 0.0
+                if mx_ < 1e15:
+                    parts[0] = np.rint(parts[0])
+                    idt_ = np.int8 if mx_ < 120 else (np.int16 if mx_ < 3e4 else np.int64)
+                    R.bucket('real-api:integer-dtype-input:' + np.dtype(idt_).name)
+                    x = parts[0].astype(idt_)
+                else:
+                    x = parts[0].copy()
+            else:
+                x = parts[0].copy()
         if api == 'real':
             fn = q.digitize if call.get('alias') else q.quantize
             out, ev = guarded(fn, x) if cu is None else guarded(fn, x, custom_std=cu)
